@@ -39,6 +39,11 @@ def check(ctx):
     c06.r06_9(ctx, m)  # a component that was ordered must not look skipped to the caller
     c06.r06_5(ctx, m)  # tags a skipped component carries from the input play no role
     ctx.not_decided.append("that the degree census recognises exactly the non-chain components (a graph-theoretic statement about biccs/dfs, see C15)")
+    # mechanisms this property rests on (see shared.py): a change there is reported here as well
+    from . import shared as _sh
+
+    _sh.graph_loader(ctx)
+    _sh.cli_layer(ctx, "gaftools.cli.order_gfa")
 
 
 def r18_1(ctx, m):
